@@ -153,6 +153,8 @@ B_OPEN_DAT = [B("b_open_%s_%s" % (f, e), "%s file %s: %s" % (f, e, "documented 1
                 functions=["%s.rs open_with_params" % f], cap=400) for f in ("key", "val") for e in ("new", "existing")]
 B_SYNC = B("b_sync_plumbing", "VarFile::flush / sync_all / sync_data reach the buffer flush and the matching OS sync in the order write < flush < sync; a failing write-back is handed to the caller and leaves the buffer dirty", cap=300,
            functions=["vfile.rs VarFile::flush", "vfile.rs VarFile::sync_all", "vfile.rs VarFile::sync_data"])
+B_WRAP = [B("b_wrap_sync_" + f, "%s file: the per-file flush / sync_all / sync_data wrappers write back whatever is pending, whatever the file holds (also an empty table), and reach the matching OS sync" % f, cap=300,
+            functions=["%s.rs flush / sync_all / sync_data of the file handle" % f]) for f in ("htx", "key", "val")]
 B_CODEC = [B("b_codec_" + k, "field codec %s: bytes = documented vu64 pattern of value(/8), width = encoded length, no other byte touched, reads back, reader stops behind the field" % k, bounds="ALL values of the field type", cap=400,
              functions=["vfile.rs write_/read_ %s" % k, "vu64::io"]) for k in ("offset", "size", "keylen", "vallen", "free_link")]
 B_ZEROL = B("b_zero_to_offset_long", "write_zero_to_offset over runs up to 2.3 KiB from arbitrary stale bytes: every byte of [pos, target) zero, nothing else changed, position and length right", cap=600, bounds="image of 2400 symbolic bytes, position and target symbolic", functions=["vfile.rs write_zero_to_offset"])
@@ -260,9 +262,9 @@ prop("C01", [MB["put_new"], MB["put_over"], MB["del_hit"], MB["del_miss"], MB["l
      outside=["histories that need more than 3 simultaneously live entries in ONE inductive step (longer histories are covered by the induction)", "rabuf's chunking and eviction (dependency)", "I/O errors of a sick file system", "values/keys longer than the tracked bytes at level M: lengths up to 2^24/2^31 are decided at levels K and R"])
 prop("C08", [MB["put_over"], quick(M_BIG["del_hit"]), K_KGROW, M_BIG["put_over"], thorough(MB["del_hit"]), thorough(MV["put_over"]), thorough(MV["del_hit"]), thorough(MS["put_over"])],
      trusted_base=TB_COMMON + M_TB, rule=R_M, bounds=M_BOUNDS, outside=["relocation cascades longer than the chain bound (2 at quick, 3 at thorough): the relink loop is verified for every chain of that length, longer chains repeat the same step"])
-prop("C03", M_FLUSH + [B_SYNC], trusted_base=TB_COMMON + M_TB + B_TB, rule=R_M, bounds=M_BOUNDS,
+prop("C03", M_FLUSH + [B_SYNC] + B_WRAP, trusted_base=TB_COMMON + M_TB + B_TB, rule=R_M, bounds=M_BOUNDS,
      outside=["database-level FileDb::sync_all/sync_data over the name registries (BTreeMap<String,_>: see C11)", "what fsync really does; that rabuf's flush writes every dirty chunk (dependency; its byte model is validated natively)", "SIGKILL timing"])
-prop("C16", M_FAULT + [B_SYNC], trusted_base=TB_COMMON + M_TB + B_TB, rule=R_M, bounds=M_BOUNDS,
+prop("C16", M_FAULT + [B_SYNC] + B_WRAP, trusted_base=TB_COMMON + M_TB + B_TB, rule=R_M, bounds=M_BOUNDS,
      outside=["that a rabuf chunk stays dirty when its write fails, RLIMIT_FSIZE / ENOSPC behaviour of the OS (dependency and kernel): the abyssiniandb part - error propagation and the dirty flag - is what is decided"])
 
 R_B = "B-harness rule: the real byte-level function on a symbolic file image."
